@@ -1,5 +1,14 @@
-import LdarModel.Model.Propagate
+import LdarModel.Lemmas.Propagate
 import LdarModel.Generated.Levels
+/-
+C15 — virtual-world parameters: most granular level wins, site totals are conserved.
+-/
 namespace LdarModel.Propagate
-theorem stub_tmp : True := trivial
+open LdarModel.Generated.Levels
+
+theorem tables_same_key_every_level : tables.SameKeys := by decide
+theorem tables_scaled_entries : tables.ScaleOK := by decide
+theorem tables_pops : tables.PopsOK := by decide
+theorem tables_unprefix_rule : tables.UnprefixOK := by decide
+
 end LdarModel.Propagate
